@@ -231,3 +231,114 @@ def mk_overlay(la, lb, tier='quick'):
 
 _add(mk_overlay((V, V), (W,)))
 _add(mk_overlay((W,), (V, V), tier='thorough'))
+
+
+# ---------------------------------------------------------------- three inputs, empty inputs, 3-label permutations (concrete cells, symbolic labels)
+
+def frame_from_table(env, cat, al, table, axis):
+    """table[i][j]: cell at (cat[i], al[j]); axis = concatenation axis (cat labels lie along it)."""
+    sf = env.sf
+    if axis == 0:
+        index, columns, rows = cat, al, table
+    else:
+        index, columns, rows = al, cat, [[table[i][j] for i in range(len(cat))] for j in range(len(al))]
+    if not columns:
+        return sf.Frame(index=index)
+    if not index:
+        return sf.Frame(columns=columns)
+    return sf.Frame.from_items(((c, env.array([rows[r][k] for r in range(len(index))], 'int64')) for k, c in enumerate(columns)), index=index)
+
+
+def ref_concat(inputs, union, fill, same_order_ok=True):
+    """inputs: list of (cat labels, aligned labels, table) -> (cat_all, al_all as a SET, cell dict)"""
+    cell = {}
+    cat_all = []
+    for cat, al, table in inputs:
+        cat_all += cat
+        for i, cl in enumerate(cat):
+            for j, a in enumerate(al):
+                cell[(cl, a)] = table[i][j]
+    sets = [set(al) for _, al, _ in inputs]
+    al_all = set().union(*sets) if union else set.intersection(*sets)
+    return cat_all, sorted(al_all), cell
+
+
+def mk_concat_three(axis, tier='quick'):
+    def body(env, e0, e1, x0, x1, union):
+        from vf import rt
+        e0, e1, union = bool(e0), bool(e1), bool(union)
+        x0, x1 = concretize(x0, 0, 2), concretize(x1, 0, 2)
+
+        def run():
+            sf = env.sf
+            fill = -1
+            inputs = []
+            for k, (al, base) in enumerate((([] if e0 else [0, 1], 100), ([] if e1 else [0, 1], 200), ([x0, x1], 300))):
+                cat = [10 + 2 * k, 11 + 2 * k]
+                inputs.append((cat, al, [[base + 10 * i + j for j in range(len(al))] for i in range(2)]))
+            frames = [frame_from_table(env, cat, al, t, axis) for cat, al, t in inputs]
+            r = sf.Frame.from_concat(frames, axis=axis, union=union, fill_value=fill)
+            got = obs_by_label(env, r)
+            cat_all, al_all, cell = ref_concat(inputs, union, fill)
+            table = [[cell.get((cl, a), fill) for a in al_all] for cl in cat_all]
+            if axis == 0:
+                exp = [cat_all, al_all, table if al_all else [[] for _ in cat_all]]
+            else:
+                exp = [al_all, cat_all, [[table[i][j] for i in range(len(cat_all))] for j in range(len(al_all))]]
+            # the concatenation-axis labels keep input order (checked as a list); the aligned axis is compared as a mapping
+            cat_got = got[0] if axis == 0 else got[1]
+            return [canon(got, axis), cat_got], [canon(exp, axis), cat_all]
+        return rt.untraced(run)
+    return Cond(f'frame_concat_three_inputs_axis{axis}', [('e0', 'bool'), ('e1', 'bool'), ('x0', 'int'), ('x1', 'int'), ('union', 'bool')], body,
+            ranges={'x0': (0, 2), 'x1': (0, 2)}, pre=['x0 != x1'],
+            functions=['Frame.from_concat', 'index_many_set', 'ufunc_set_iter'],
+            bounds='three frames with 2 labels on the concatenation axis each; the first and the second input have NO labels on the aligned axis or labels [0, 1] (symbolic), the third has two distinct labels symbolic in 0..2; union / intersection symbolic; concrete cells, fill -1',
+            route=f'Frame.from_concat of three frames (axis={axis}): every cell of every input once at its own labels, also when earlier inputs are empty on the aligned axis', tier=tier, timeout=300)
+
+
+_add(mk_concat_three(0))
+_add(mk_concat_three(1))
+
+
+def mk_concat_perm3(axis, tier='quick'):
+    def body(env, x0, x1, x2, explicit):
+        from vf import rt
+        xs = [concretize(v, 0, 3) for v in (x0, x1, x2)]
+        explicit = bool(explicit)
+
+        def run():
+            sf = env.sf
+            fill = -1
+            inputs = [([10, 11], [0, 1, 2], [[100 + 10 * i + j for j in range(3)] for i in range(2)]),
+                      ([12, 13], xs, [[200 + 10 * i + j for j in range(3)] for i in range(2)])]
+            frames = [frame_from_table(env, cat, al, t, axis) for cat, al, t in inputs]
+            kw = {}
+            target = None
+            if explicit:
+                target = [2, 0, 1, 3]     # an explicit label order for the aligned axis
+                kw = {'index' if axis == 1 else 'columns': target}
+            r = sf.Frame.from_concat(frames, axis=axis, fill_value=fill, **kw)
+            got = obs_by_label(env, r)
+            cat_all, al_all, cell = ref_concat(inputs, True, fill)
+            if explicit:
+                al_all = target
+            table = [[cell.get((cl, a), fill) for a in al_all] for cl in cat_all]
+            if axis == 0:
+                exp = [cat_all, al_all, table]
+            else:
+                exp = [al_all, cat_all, [[table[i][j] for i in range(len(cat_all))] for j in range(len(al_all))]]
+            al_got = got[1] if axis == 0 else got[0]
+            out, ref = [canon(got, axis)], [canon(exp, axis)]
+            if explicit or xs == [0, 1, 2]:
+                out.append(al_got); ref.append(al_all)      # order of the aligned axis is specified in these cases
+            return out, ref
+        return rt.untraced(run)
+    return Cond(f'frame_concat_permuted3_axis{axis}', [('x0', 'int'), ('x1', 'int'), ('x2', 'int'), ('explicit', 'bool')], body,
+            ranges={'x0': (0, 3), 'x1': (0, 3), 'x2': (0, 3)}, pre=['x0 != x1', 'x0 != x2', 'x1 != x2'],
+            functions=['Frame.from_concat'],
+            bounds='two frames with 3 labels on the aligned axis: [0, 1, 2] and three distinct labels symbolic in 0..3 in any order (identical / fully or PARTLY permuted / one label replaced); union, or an explicit label list for the aligned axis (symbolic choice); concrete cells, fill -1',
+            route=f'Frame.from_concat(axis={axis}): each input re-aligned by label whatever part of its labels is already in place', tier=tier, timeout=300)
+
+
+_add(mk_concat_perm3(0))
+_add(mk_concat_perm3(1))
